@@ -167,16 +167,46 @@ theorem owner_roundtrip (c : CryptoOps) (enc : Bool) (σ : Sys) (h : Inv c σ) (
     · left
       simp [deanonResult, stepThread, Thread.start, Store.get, hs, hdis, hd, decTV, encTV]
 
+/-- `pseudonymization/utils.go`: `decodeInt32` / `decodeInt64` start with `if len(data) != 4` / `!= 8`. -/
+theorem fact_decode_int_length_checked :
+    decodeIntLengthChecks = [("decodeInt32", 4), ("decodeInt64", 8)] := by decide
+
+/-- **No stored record makes the tokenizer panic**: whatever bytes the token store returns under the id
+that is looked up – a damaged record, a record of another length or of another type – decoding the
+`h.` payload (`bytesToGolangValue`, consistent tokenization) and the `t.` record (`TokenValueFromData`,
+type comparison, `bytesToGolangValue`; detokenization) ends in a value or an error. -/
+theorem decode_record_no_panic (ty : TokenType) (data : Bytes) :
+    decodeAs ty data ≠ .panic ∧ decTV ty data ≠ .panic :=
+  ⟨decodeAs_no_panic ty data, decTV_no_panic ty data⟩
+
+/-- … and what a record decodes to is the stored payload itself; an integer only ever comes from a
+payload of exactly 4 / 8 bytes (a longer record is refused, not cut to its first bytes). -/
+theorem decode_record_exact (ty : TokenType) (d v : Bytes) (h : decodeAs ty d = .ok v) :
+    v = d ∧ (ty = .int32 → d.length = 4) ∧ (ty = .int64 → d.length = 8) := decodeAs_ok ty d v h
+
+/-- a `t.` record of another type than the requested one is refused -/
+theorem decode_record_type_checked (ty rty : TokenType) (hne : rty.code ≠ ty.code) (v : Bytes) :
+    decTV ty (encTV rty v) = .err := by
+  have h1 : rty.code < 256 := by cases rty <;> decide
+  have h2 : ty.code < 256 := by cases ty <;> decide
+  have : UInt8.ofNat rty.code ≠ UInt8.ofNat ty.code := by
+    intro e
+    have := congrArg UInt8.toNat e
+    simp [Nat.mod_eq_of_lt h1, Nat.mod_eq_of_lt h2] at this
+    exact hne this
+  simp [decTV, encTV, this]
+
+/-- The pinned tree (no length check in `decodeInt32`): a stored value shorter than 4 bytes panics. -/
+theorem legacy_short_record_counterexample (name : String) (h0 : intLenCheck name = 0) :
+    decodeInt name 4 [] = .panic ∧ decodeInt name 4 [1, 2, 3] = .panic ∧ decodeInt name 4 [1, 2, 3, 4, 5] = .ok [1, 2, 3, 4] :=
+  ⟨legacy_short_record_panics name h0 [] (by decide), legacy_short_record_panics name h0 [1, 2, 3] (by decide),
+   legacy_long_record_truncated name h0 [1, 2, 3, 4, 5] (by decide)⟩
+
 /-- for well-formed values `bytesToGolangValue` is the identity: strings, bytes, e-mails always,
 integers when encoded on 4 / 8 bytes (which `encodeToBytes` guarantees) -/
 theorem decodeAs_wellformed (ty : TokenType) (v : Bytes)
     (h : (ty = .int32 → v.length = 4) ∧ (ty = .int64 → v.length = 8)) : decodeAs ty v = .ok v := by
-  cases ty with
-  | int32 => simp [decodeAs, h.1 rfl, List.take_of_length_le]
-  | int64 => simp [decodeAs, h.2 rfl, List.take_of_length_le]
-  | str => rfl
-  | bytes => rfl
-  | email => rfl
+  exact decodeAs_exact ty v h
 
 /-- **`unknown_gets_itself`.** A token that has no record in the caller's context (never issued there,
 or removed), and likewise a disabled one, comes back unchanged. -/
